@@ -128,9 +128,37 @@ def subnet_part(V, tr, sd):
             "subnet_partial_regions": sum(1 for c in cases if "snet" in c and len(c["snet"]["J"]) < len(c["net"]["J"]))}
 
 
+def hashseed_part(V, tr, sd):
+    """tools that walk over a set of table names (create_continuous_elements_index): every processing order must give the same,
+    correct relabelling.  Model: MC_ContAll (all orders, exhaustive); code: the same calls under several PYTHONHASHSEED values."""
+    from . import hashseed
+    mc = tlc.run("MC_ContAll", workers=4, timeout=1200, check=True)
+    coded = tlc.run("MC_ContAll", cfg="MC_ContAll_coded.cfg", workers=1, timeout=1200, check=False)
+    jobs = []
+    for b in (1, 2, 3):
+        for st in (0, 3):
+            jobs.append({"id": "ca%d.%d" % (b, st), "base": b, "hist": [{"op": "continuous_all", "tbl": "all", "start": st}]})
+            jobs.append({"id": "cb%d.%d" % (b, st), "base": b, "hist": [{"op": "reindex", "tbl": "junction", "lk": [[b + 1 if b < 3 else 7, 9]]},
+                                                                        {"op": "continuous_all", "tbl": "all", "start": st}]})
+    seeds = list(range(8)) if tr == "quick" else list(range(40))
+    cases = [c for cs in core.pmap(hashseed.run_seed, [(s, jobs) for s in seeds], chunksize=1, workers=8) for c in cs]
+    res, fails = validate(cases)
+    by_id = {c["id"]: c for c in cases}
+    nf = 0
+    for f in fails:
+        for cl in f["clauses"]:
+            if cl[0].startswith("C17"):
+                nf += 1
+                c = by_id[f["id"]]
+                V.report(cl[0], cl[1], c, text="event=%s case=%s hashseed=%s exc=%s" % (f["ev"], f["id"], c.get("hashseed"), c["events"][f["ev"] - 1].get("exc")))
+    return {"order_model_states": mc.distinct, "order_model_as_coded_violates": coded.invariant_violated,
+            "hash_seeds": len(seeds), "hash_seed_cases": len(cases), "hash_seed_failures": nf}
+
+
 def main():
     V = core.Verdicts("C17")
     extra = subnet_part(V, core.tier(), core.seed())
+    extra.update(hashseed_part(V, core.tier(), core.seed()))
     rc1 = V.finish()
     rc2 = run("C17", extra_cov=extra, prior=len(V.violations))
     return 1 if (rc1 or rc2) else 0
